@@ -378,11 +378,28 @@ func GenPKG(w *World, maxEdits int, opts ...string) *Scenario {
 		sc.Desc = append(sc.Desc, fmt.Sprintf("%s %s spec=%v annotations=%v", g.Kind, name, spec, store.Annotations(o)))
 	}
 	nE := s.Intn(maxEdits+1, "nEdits")
+	hist := map[store.Key][]map[string]any{}
+	for _, k := range g.Keys {
+		if o, ok := w.Mgmt.Objs[k]; ok {
+			sp, _ := o["spec"].(map[string]any)
+			hist[k] = append(hist[k], store.Copy(sp))
+		}
+	}
 	for i := 0; i < nE; i++ {
 		key := g.Keys[s.Intn(len(g.Keys), "edit-target")]
-		switch s.Weighted([]int{6, 2, 2}, "edit-kind") {
-		case 0:
+		kind := s.Weighted([]int{6, 2, 2, 3}, "edit-kind")
+		if kind == 3 && len(hist[key]) < 2 {
+			kind = 0
+		}
+		switch kind {
+		case 0, 3:
 			spec := mkSpec()
+			if kind == 3 {
+				// roll back: exactly the spec before the last edit
+				spec = store.Copy(hist[key][len(hist[key])-2])
+				delete(spec, "paused")
+			}
+			hist[key] = append(hist[key], store.Copy(spec))
 			sc.UserOps = append(sc.UserOps, UserOp{Label: fmt.Sprintf("edit %s spec -> %v", key.Name, spec), Do: func(w *World) {
 				_, _ = w.TP("user", w.Mgmt).Mutate(key, func(o store.Obj) {
 					old, _ := o["spec"].(map[string]any)
